@@ -451,10 +451,67 @@ def check_c10(run):
             run.violation("reader %s breaks its contract: expected '%s', observed '%s'" % (k, exp, xv.strip_alloc(l)),
                           {"call": k, "offset": o, "input": h, "expected": exp, "observed": xv.strip_alloc(l)})
     run.cov["calls_by_reader"] = kinds
+    utf8_tie(run, exe)
 
 
-# =======================================================================================
-# C01 - C09: the generated decoders (shared corpus)
+def utf8_tie(run, exe):
+    """Utf8.utf8_valid (the model of String::from_utf8's verdict) against the real read_string on
+    EVERY 1- and 2-byte string and on the boundary classes of the 3- and 4-byte forms"""
+    cands = [bytes([a]) for a in range(256)] + [bytes([a, b]) for a in range(256) for b in range(256)]
+    long_ = []
+    for a in (0xE0, 0xE1, 0xEC, 0xED, 0xEE, 0xEF):
+        for b in (0x7F, 0x80, 0x9F, 0xA0, 0xBF, 0xC0):
+            for c in (0x7F, 0x80, 0xBF, 0xC0):
+                long_.append(bytes([a, b, c]))
+    for a in (0xF0, 0xF1, 0xF3, 0xF4, 0xF5, 0xF7, 0xF8):
+        for b in (0x7F, 0x80, 0x8F, 0x90, 0xBF, 0xC0):
+            for c in (0x7F, 0x80, 0xBF, 0xC0):
+                for d in (0x80, 0xBF, 0xC0):
+                    long_.append(bytes([a, b, c, d]))
+    cands += long_
+
+    def enc(d):
+        return struct.pack(">I", len(d)) + d + b"\0" * ((4 - len(d) % 4) % 4)
+    lines = xv.run_runner(exe, ["0 @string:- 0 %s" % enc(d).hex() for d in cands])
+    real_ok = [" OK " in (" " + l.split(" alloc")[0] + " ") and "NonUtf8" not in l for l in lines]
+    bad = [l for l in lines if not ("RD OK str:" in l or "NonUtf8String" in l)]
+    py_ok = []
+    for d in cands:
+        try:
+            d.decode("utf-8")
+            py_ok.append(True)
+        except UnicodeDecodeError:
+            py_ok.append(False)
+    # the model, in two evaluations: all pairs generated inside Coq, the long forms sent as data
+    body = ["From XdrModel Require Import Utf8.", "Open Scope N_scope.", "Open Scope list_scope.",
+            "Definition bytes256 : list N := map N.of_nat (seq 0 256).",
+            "Eval vm_compute in (filter (fun a => utf8_valid [a]) bytes256).",
+            "Eval vm_compute in (flat_map (fun a => map (fun b => a * 256 + b) (filter (fun b => utf8_valid [a; b]) bytes256)) bytes256).",
+            "Eval vm_compute in (map (fun l => if utf8_valid l then 1 else 0) [%s])." % "; ".join("[%s]" % "; ".join(str(x) for x in d) for d in long_)]
+    try:
+        out = xv.coq_eval("utf8_tie_%s" % run.tier, "\n".join(body))
+    except TieBroken as e:
+        run.oblige("UTF-8 tie evaluates", False, str(e))
+        return
+    parts = re.findall(r'=\s*\[(.*?)\]\s*:\s*list', out, re.S)
+    nums = [[int(x) for x in re.findall(r'\d+', p)] for p in parts]
+    model_ok = [False] * len(cands)
+    if len(nums) == 3:
+        for a in nums[0]:
+            model_ok[a] = True
+        for ab in nums[1]:
+            model_ok[256 + ab] = True
+        for k, v in enumerate(nums[2]):
+            model_ok[256 + 65536 + k] = (v == 1)
+    dis_model = [cands[i].hex() for i in range(len(cands)) if model_ok[i] != real_ok[i]]
+    dis_py = [cands[i].hex() for i in range(len(cands)) if py_ok[i] != real_ok[i]]
+    run.oblige("Utf8.utf8_valid = the verdict of the real read_string on all %d one- and two-byte strings and %d three-/four-byte "
+               "boundary strings" % (256 + 65536, len(long_)), len(nums) == 3 and not dis_model and not bad,
+               "model differs on %s; unexpected lines %s" % (dis_model[:8], bad[:2]))
+    run.cov["utf8_strings_compared"] = len(cands)
+    for h in dis_py[:5]:
+        run.violation("read_string and RFC 3629 disagree on the byte string %s" % h, {"call": "@string:-", "input": h})
+
 
 import corpus as corpus_mod  # noqa: E402
 import valgen  # noqa: E402
